@@ -18,6 +18,9 @@ MOD = 'checks.c07_pack'
 ROOT = 0
 # a non-initial state: root -> 1 -> 2
 CHAIN = [['newlink', 0, 1], ['newlink', 1, 2]]
+# ... and one where a transaction holds TWO records of object 1 (two undos in
+# one transaction, as DB.undoMultiple does it)
+DOUBLE = CHAIN + [['mod', 1], ['mod', 1], ['undo2', 0, 1]]
 
 
 class GSpec(world.Spec):
@@ -85,7 +88,7 @@ class PackWorld(world.World):
         k = op[0]
         m = self.model
         O = self.oid
-        if k in ('undo', 'reopen', 'pack'):
+        if k in ('undo', 'undo2', 'reopen', 'pack'):
             return super()._apply(op, spec)
         self.transitions += 1
         self.tick()
@@ -253,7 +256,8 @@ def node(w, hist, cfg, res):
             viol.append((clause, sig, detail))
 
     for label, t, j in pack_times(m):
-        if cfg.get('start') and j < w.nstart:
+        if cfg.get('start') and j < w.nstart and \
+                cfg.get('start') != DOUBLE:
             continue        # covered by the exploration from the root
         T = tids[j - 1] if j else Z64
         after = tids[j:]
@@ -507,7 +511,8 @@ def run(rep, tier, seed, workers):
                 dict(prop='C07', kind='F', nobj=2, depth=4),
                 dict(prop='C07', kind='M', nobj=2, depth=4, undo=False),
                 dict(prop='C07', kind='F', nobj=2, depth=4, start=CHAIN,
-                     nmod=2)]
+                     nmod=2),
+                dict(prop='C07', kind='F', nobj=2, depth=2, start=DOUBLE)]
     else:
         plan = [dict(prop='C07', kind='F', nobj=2, depth=4,
                      pack_empty_first=1),
@@ -517,7 +522,8 @@ def run(rep, tier, seed, workers):
                 dict(prop='C07', kind='M', nobj=3, depth=5, undo=False,
                      selfloop=True),
                 dict(prop='C07', kind='F', nobj=3, depth=5, start=CHAIN,
-                     nmod=2)]
+                     nmod=2),
+                dict(prop='C07', kind='F', nobj=2, depth=4, start=DOUBLE)]
     rep.rule = (
         'for every history over {create linked / as garbage, link, unlink '
         '(cycles allowed), modify, undo} starting from a root: pack(T, gc) '
@@ -535,7 +541,9 @@ def run(rep, tier, seed, workers):
         fps = seqx.explore(rep, MOD, cfg, depth, workers, seed, split=3)
         states += len(fps)
         rep.bounds['%s depth (after %s)' % (
-            cfg['kind'], 'root->1->2' if cfg.get('start') else
+            cfg['kind'], 'root->1->2, two modifications of 1 and their '
+            'undo in one transaction' if cfg.get('start') == DOUBLE else
+            'root->1->2' if cfg.get('start') else
             'pack of the empty storage + root creation'
             if cfg.get('pack_empty_first') else 'root creation')] = depth
         rep.bounds['%s objects' % cfg['kind']] = cfg['nobj'] + 1
